@@ -88,6 +88,13 @@ func (r Wrapper) handleS2SAccessTokenRequest(ctx context.Context, clientID strin
 	if err := pexConsumer.fulfill(*submission, *pexEnvelope); err != nil {
 		return nil, oauthError(oauth.InvalidRequest, err.Error())
 	}
+	// This grant type carries a single presentation submission, so it can fulfill only 1 presentation definition.
+	// If the scope requires more (e.g. organization and user wallet), the access token can't be issued using this grant type.
+	for _, required := range pexConsumer.RequiredPresentationDefinitions {
+		if !pexConsumer.isFulfilled(required.Id) {
+			return nil, oauthError(oauth.InvalidRequest, fmt.Sprintf("scope (%s) requires a presentation definition that is not fulfilled by the presentation submission: %s", scope, required.Id))
+		}
+	}
 
 	for _, presentation := range pexEnvelope.Presentations {
 		if err := r.validateS2SPresentationNonce(presentation); err != nil {
